@@ -107,6 +107,10 @@ Judge(c) ==
         ELSE \* "outcome"
             IF c.out = "timeout" THEN PrintT(<<"REJECT", c.id, "did_not_terminate", 0>>)
             ELSE IF c.out = "zpe" /\ ~PosOk(c.gtext, c.line, c.col) THEN PrintT(<<"REJECT", c.id, "position_outside_text", 0>>)
+            \* a missing or malformed version header has a place in the text (its first line): the "unknown" position
+            \* (0,0) is for failures that have none (repaired in round 7; until then every header failure said (0,0))
+            ELSE IF c.out = "zpe" /\ c.line = 0 /\ ~r.ok /\ r.why = "bad_version_header" /\ c.gtext = c.text
+                 THEN PrintT(<<"REJECT", c.id, "position_outside_text", 1>>)
             ELSE IF r.ok THEN
                 (IF c.out = "grid" THEN
                     (IF r.amb \/ DocEq(IF c.single /\ r.grids # <<>> THEN <<r.grids[1]>> ELSE r.grids, c.abs) THEN PrintT(<<"OK", c.id>>)
